@@ -281,6 +281,9 @@ class Schema(dict, metaclass=LogicalMeta):
                 # collected error, but what a getter raises on such data must not replace the collected report
                 try:
                     self.__coerce_property__(field, context=context)
+                except exc.CollectedParseError:
+                    # (max_errors is reached: that ends the parse)
+                    raise
                 except Exception:  # noqa
                     pass
                 continue
